@@ -1,11 +1,140 @@
-import AlgoVerif.Model.C06Run
+import AlgoVerif.Proofs.C06BinarySim
+import AlgoVerif.Proofs.C06Patricia
+import AlgoVerif.Proofs.C06PNul
 /-!
-# C06 — property theorems (statements only live here; helper lemmas in `Proofs/C06*.lean`)
+# C06 — tries are ordered string maps with prefix and pattern queries
+
+Only the property theorems live here; the helper lemmas are in `Proofs/C06*.lean`.
+
+* `Spec.Map` (`Spec/C06.lean`): an association list strictly sorted by `klt`, the ordered-map queries
+  and `withPrefix` / `longestPrefixOf` / `match` as plain `filter` / `find?` / `head?` / `getLast?`.
+* `Binary`, `Patricia` (`Model/C06.lean`): transcriptions of `trie/binary.go` and `trie/patricia.go`
+  (+ `bitstring.go`, `bitpattern.go`) after the `fix:` commits for D6, D7, D8, D9a–d.
+* `Binary.run` / `Patricia.run` / `Spec.Map.run` (`Model/C06Run.lean`): a history is a list of `Op`;
+  queries are operations, so "every query argument" is covered by "every history".
 -/
 open AlgoVerif AlgoVerif.C06
 
-/-- D9e (known finding): after `Put "a"`, `Put "a\x00"` panics in the Patricia trie. -/
+/-! ## the Spec's order is the lexicographic order on bytes, and Spec states stay strictly sorted -/
+
+/-- `klt` (Go's `<` on strings) is core Lean's lexicographic order on `List UInt8`. -/
+theorem C06_spec_order_is_lexicographic (a b : Key) : klt a b = true ↔ a < b := klt_iff_lt a b
+
+/-- Whatever the history, the Spec's association list is strictly increasing — so `head?`, `getLast?`,
+`filter` in the Spec's definitions really are minimum, maximum and the ascending sub-lists. -/
+theorem C06_spec_sorted {V : Type} (ops : List (Op V)) (m : Spec.Map V) (hm : Sorted m) :
+    Sorted (specFinal Spec.Map.step m ops) := by
+  induction ops generalizing m with
+  | nil => exact hm
+  | cons op ops ih =>
+    apply ih
+    cases op <;> simp only [Spec.Map.step] <;> try exact hm
+    · exact Spec.Map.put_sorted hm _ _
+    · exact hm.filter _
+    · exact List.Pairwise.sublist (List.tail_sublist m) hm
+    · exact List.Pairwise.sublist (List.dropLast_sublist m) hm
+    · exact Sorted.nil
+
+/-! ## binary trie: the full statement -/
+
+/-- **C06, binary trie.**  For every history of Put, Get, Delete, DeleteMin, DeleteMax, DeleteAll and all
+queries (Size, Min, Max, Floor, Ceiling, Select, Rank, Range, RangeSize, All, WithPrefix, LongestPrefixOf,
+Match) whose stored / looked-up / deleted keys are non-empty, over any value type, the binary trie never
+panics and every operation returns exactly what the sorted map returns (lists in ascending order). -/
+theorem C06_binary {V : Type} [Inhabited V] (ops : List (Op V)) (hk : ∀ op ∈ ops, op.keysNonempty = true) :
+    Binary.run (Binary.new : Binary V) ops = (Spec.Map.run ([] : Spec.Map V) ops).map Outcome.ok :=
+  Binary.run_sim BInv.new ops hk
+
+/-- non-vacuity: a history that deletes a key which is a prefix (`a`) and one which is an extension
+(`abc`) of held keys, with queries in between; the hypothesis of `C06_binary` holds for it. -/
+example : ∀ op ∈ ([.put [97] 1, .put [97, 98] 2, .put [97, 98, 99] 3, .delete [97], .withPrefix [97], .delete [97, 98, 99],
+    .longestPrefixOf [97, 98, 100], .match [97, 42], .rank [97, 97], .deleteMin, .all] : List (Op Int)),
+    op.keysNonempty = true := by decide
+
+example : Binary.run (Binary.new : Binary Int)
+    [.put [97] 1, .put [97, 98] 2, .put [97, 98, 99] 3, .delete [97], .withPrefix [97], .delete [97, 98, 99],
+     .longestPrefixOf [97, 98, 100], .match [97, 42], .rank [97, 97], .deleteMin, .all]
+    = [.ok .unit, .ok .unit, .ok .unit, .ok (.val (some 1)), .ok (.list [([97, 98], 2), ([97, 98, 99], 3)]),
+       .ok (.val (some 3)), .ok (.kv (some ([97, 98], 2))), .ok (.list [([97, 98], 2)]), .ok (.int 0),
+       .ok (.kv (some ([97, 98], 2))), .ok (.list [])] := by decide
+
+/-! ## Patricia trie -/
+
+/-- `bitString.Bit`: position 0 panics (negative shift), position `i + 1` is bit `i` of the zero-padded
+bit sequence. -/
+theorem C06_bitstring_bit (b : BitString) :
+    BitString.bit b 0 = .panic ∧ ∀ i, BitString.bit b (i + 1) = .ok (kbit b i) :=
+  ⟨BitString.bit_zero b, BitString.bit_succ b⟩
+
+/-- `bitString.DiffPos`: 0 exactly when the zero-padded bit sequences coincide (the case the Patricia
+trie cannot represent), otherwise the 1-based position of the first differing bit. -/
+theorem C06_bitstring_diffPos (b c : BitString) :
+    (BitString.diffPos b c = 0 ↔ ∀ j, kbit b j = kbit c j) ∧
+    (∀ p, BitString.diffPos b c = p + 1 → kbit b p ≠ kbit c p ∧ ∀ j, j < p → kbit b j = kbit c j) :=
+  ⟨BitString.diffPos_eq_zero_iff b c, BitString.diffPos_succ b c⟩
+
+/-- `bitString.Equal` is equality of the byte strings; `b.HasPrefix(c)` says the zero-padded `b` agrees
+with `c` on the `len(c)` bits of `c`. -/
+theorem C06_bitstring_equal_hasPrefix (b c : BitString) :
+    (BitString.equal b c = true ↔ b = c) ∧
+    (BitString.hasPrefix b c = true ↔ ∀ j, j < BitString.len c → kbit b j = kbit c j) :=
+  ⟨BitString.equal_iff b c, BitString.hasPrefix_iff b c⟩
+
+/-- `search` terminates: on every store whose links point into the store (only the root's right link is
+nil, the root's bit position is 0) `search` returns a stored node, within the Model's fuel and
+without dereferencing nil — the loop only follows links to strictly larger bit positions. -/
+theorem C06_patricia_search_total {V : Type} (t : Patricia V) (hc : Patricia.Closed t) (key : BitString) :
+    (t.root = none ∧ t.search key = .ok none) ∨ ∃ r, r < t.nodes.size ∧ t.search key = .ok (some r) :=
+  Patricia.search_total hc key
+
+example : Patricia.Closed (Patricia.new : Patricia Int) := Patricia.Closed.new
+
+/-- **C06, Patricia trie, partial.**  For every history of Put, Get, DeleteAll and the ordered-map queries
+(Size, Min, Max, Floor, Ceiling, Select, Rank, Range, RangeSize, All) in which no Put meets a different held key
+with the same zero-padded bit string (`PatriciaHistory`, see `Model/C06Run.lean`), over any value type,
+the Patricia trie never panics, never runs out of fuel, and every operation returns exactly what the sorted
+map returns.
+
+Full statement (not proved; the missing operations are tied to the code by the per-run correspondence and
+oracle checks only):
+```
+theorem C06_patricia (ops : List (Op V)) (h : no Put in `ops` meets a held key equal to it up to trailing 0x00) :
+    Patricia.run Patricia.new ops = (Spec.Map.run [] ops).map Outcome.ok
+```
+Missing: Delete / DeleteMin / DeleteMax (`remove`'s relinking of the cyclic store: the unfolding `Rep` of
+`Proofs/C06PRep.lean` has to be re-established after up to four link updates and a node taking over another
+node's bit position) and the three string queries WithPrefix / LongestPrefixOf / Match on the Patricia trie. -/
+theorem C06_patricia_partial {V : Type} (ops : List (Op V)) (h : PatriciaHistory ([] : Spec.Map V) ops = true) :
+    Patricia.run (Patricia.new : Patricia V) ops = (Spec.Map.run ([] : Spec.Map V) ops).map Outcome.ok :=
+  Patricia.run_sim Patricia.PInv.new ops h
+
+/-- The hypothesis of `C06_patricia_partial` holds in particular when no stored key ends in a 0x00 byte. -/
+theorem C06_patricia_partial_no_trailing_nul {V : Type} (ops : List (Op V))
+    (hs : ∀ op ∈ ops, op.patriciaScope = true)
+    (hk : ∀ op ∈ ops, ∀ k v, op = .put k v → k.getLast? ≠ some 0) :
+    Patricia.run (Patricia.new : Patricia V) ops = (Spec.Map.run ([] : Spec.Map V) ops).map Outcome.ok :=
+  C06_patricia_partial ops (patriciaHistory_of_noTrail ops [] (by simp) hs hk)
+
+/-- non-vacuity: a history with keys that are prefixes / extensions of each other, a key containing and one
+ending in 0x00 (not clashing), an update, and queries; it satisfies `PatriciaHistory`. -/
+example : PatriciaHistory ([] : Spec.Map Int)
+    [.put [97, 98] 1, .put [97] 2, .put [97, 0, 98] 3, .put [98, 0] 4, .put [97] 5, .get [97], .rank [97, 97], .floor [97, 99],
+     .ceiling [97, 0], .select 2, .range [97] [98], .min, .max, .all, .size] = true := by
+  decide
+
+example : Patricia.run (Patricia.new : Patricia Int)
+    [.put [97, 98] 1, .put [97] 2, .put [97, 0, 98] 3, .put [98, 0] 4, .put [97] 5, .get [97], .rank [97, 97], .floor [97, 99],
+     .ceiling [97, 0], .select 2, .range [97] [98], .min, .max, .all, .size]
+    = [.ok .unit, .ok .unit, .ok .unit, .ok .unit, .ok .unit, .ok (.val (some 5)), .ok (.int 2), .ok (.kv (some ([97, 98], 1))),
+       .ok (.kv (some ([97, 0, 98], 3))), .ok (.kv (some ([97, 98], 1))), .ok (.list [([97], 5), ([97, 0, 98], 3), ([97, 98], 1)]),
+       .ok (.kv (some ([97], 5))), .ok (.kv (some ([98, 0], 4))),
+       .ok (.list [([97], 5), ([97, 0, 98], 3), ([97, 98], 1), ([98, 0], 4)]), .ok (.int 4)] := by
+  decide
+
+/-- D9e (known finding, `known-findings.json`): the Patricia trie's keys are zero-padded bit strings,
+so after `Put "a"`, `Put "a\x00"` finds `DiffPos = 0` and panics in `Bit(0)`; the Spec (and the binary
+trie) store both keys. -/
 theorem C06_patricia_trailing_nul_counterexample :
-    Patricia.run (Patricia.new : Patricia Int) [.put [0x61] 1, .put [0x61, 0x00] 2]
-      = [.ok .unit, .panic] := by
+    Patricia.run (Patricia.new : Patricia Int) [.put [0x61] 1, .put [0x61, 0x00] 2] = [.ok .unit, .panic] ∧
+    Spec.Map.run ([] : Spec.Map Int) [.put [0x61] 1, .put [0x61, 0x00] 2] = [.unit, .unit] := by
   decide
